@@ -286,10 +286,18 @@ impl Iterator for BackoffStrategyIter {
             return None;
         }
 
+        // Delays that cannot be represented saturate instead of panicking or wrapping.
         let mut next_duration = match self.strategy_type {
-            Strategy::Linear => step * current_attempt,
+            Strategy::Linear => step.saturating_mul(current_attempt),
             Strategy::Constant => step,
-            Strategy::Exponential(factor) => step.mul_f64(factor.pow(current_attempt - 1) as f64),
+            Strategy::Exponential(factor) => match factor.checked_pow(current_attempt - 1) {
+                Some(multiplier) => {
+                    Duration::try_from_secs_f64(step.as_secs_f64() * multiplier as f64)
+                        .unwrap_or(Duration::MAX)
+                }
+                None if step.is_zero() => Duration::ZERO,
+                None => Duration::MAX,
+            },
         };
 
         self.current_attempt += 1;
